@@ -1659,7 +1659,7 @@ class AbstractUnit:
                 if inlet.sink is not self:
                     raise ValueError("sink of given inlet must be this object")
             else:
-                inlet = self.outs[inlet]
+                inlet = self.ins[inlet]
             source.outs.replace(stream, inlet)
     
     @ignore_docking_warnings
